@@ -67,9 +67,15 @@ def job_relabel(ses, x, y):
             if rec:
                 m = fmt_model(['key', 'nonce', 'message', 'footer', 'assertion', 'assertion_y'], rec)
                 steps = key_steps(x, m) + [build_step(x, m, 'some', ax), {'op': 'mutate', 'in': '$T', 'out': 'T2', 'ops': [{'set_header': y + '.'}]},
+                         # the authentic token is verified by its own protocol first: state kept between calls (a memo shared by two versions, say) is then warm
+                         {'op': 'parse_core', 'proto': x, 'token': '$T', 'key': '$k_pk', 'footer': _txt(m.get('footer')), 'assertion': None if ax == 'none' else _txt(m.get('assertion')), 'out': 'R_warm'},
                          {'op': 'parse_core', 'proto': y, 'token': '$T2', 'key': '$k_pk', 'footer': _txt(m.get('footer')),
                           'assertion': None if ay == 'none' else _txt(m.get('assertion_y')), 'out': 'R'}]
-                ses.violation('%s is accepted' % tag, m, {'steps': steps, 'violated_if': [[{'var': 'R', 'is': 'ok'}]]})
+                alts = [[{'var': 'R', 'is': 'ok'}]]
+                if ay != 'none':      # the solver's assertion for Y first, then the two spellings of "no assertion" (what X's token was built with when X has none)
+                    for ai, av in enumerate((None, '', _txt(m.get('assertion')))):
+                        steps.append({'op': 'parse_core', 'proto': y, 'token': '$T2', 'key': '$k_pk', 'footer': _txt(m.get('footer')), 'assertion': av, 'out': 'RA%d' % ai}); alts.append([{'var': 'RA%d' % ai, 'is': 'ok'}])
+                ses.violation('%s is accepted' % tag, m, {'steps': steps, 'violated_if': alts})
         ses.samples.append({'query': tag, 'paths': [describe(r) for _, r in D]})
     ses.absorb(ex)
 
